@@ -263,6 +263,12 @@ func (p *parser) expr() SExpr {
 			panic("'in' expected")
 		}
 		lo := p.add()
+		if id, ok := lo.(*SIdent); ok && id.Name == "all" && p.isOp(":") {
+			// unbounded integer-sorted quantification (used in axioms about uninterpreted functions)
+			p.expect(":")
+			body := p.expr()
+			return &SQuant{Forall: q == "forall", Var: v.s, Body: body}
+		}
 		if c, ok := lo.(*SCall); ok && c.Fun == "keys" && len(c.Args) == 1 && p.isOp(":") {
 			// quantification over the keys present in a map: forall k in keys(m): body
 			p.expect(":")
